@@ -283,6 +283,10 @@ fn c19(ops: &TypeOps, b: &[u8], plain: &(Option<Val>, usize)) {
 			viol!(ops, b, "count() = {count}, {pos} bytes consumed, encoded length {}", plain.1);
 		}
 	}
+	let (ok, count, advanced) = (d.counted_slice)(b);
+	if count != advanced as u64 {
+		viol!(ops, b, "count() = {count} after {} but the wrapped slice advanced by {advanced} bytes", if ok { "success" } else { "failure" });
+	}
 	// through the erased path with the counter under other wrappers
 	let mut spy = SpyInput::new(b);
 	let mut count = 0;
